@@ -140,7 +140,7 @@ class ScopeMap(ast.NodeVisitor):
         gens = node.generators
         self.visit(gens[0].iter)
         nxt = self.stack[-1][1].peek()
-        own_table = nxt is not None and nxt.get_name() == name and nxt.get_lineno() == node.lineno
+        own_table = nxt is not None and nxt.get_name() == name and nxt.get_lineno() == node.lineno and '.0' in nxt.get_identifiers()
         if name != 'genexpr' and not own_table:
             own_table = False
         bound = set()
@@ -235,7 +235,9 @@ def comp_targets(tab):
 
 
 def is_comp(t):
-    return t.get_type() == 'function' and t.get_name() in COMP_NAMES
+    # a user function may be *named* listcomp / genexpr (test_peepholer.py has `def listcomp():`): a real
+    # comprehension block is recognised by its implicit first parameter `.0`
+    return t.get_type() == 'function' and t.get_name() in COMP_NAMES and '.0' in t.get_identifiers()
 
 
 def real_bindings(fn):
